@@ -122,7 +122,7 @@ def run(ctx):
                 "(freeze when frozen, unfreeze when not), repeated assignments to the same locations across windows; non-trivial = a window with >= 1 rejected call and >= 1 "
                 "propagating plain assignment; distinct by op list")
     ctx.scale_if_changed()
-    proof_ok = vlib.standard_proof_part(ctx, "props/C17.v", extra_targets=["run/RunManager.vo", "proofs/TasksSrc.vo", "proofs/TasksSrcData.vo", "proofs/TasksSrcRefresh.vo"], translators=["tasks"])
+    proof_ok = vlib.standard_proof_part(ctx, "props/C17.v", extra_targets=["run/RunManager.vo", "proofs/TasksSrc.vo", "proofs/TasksSrcData.vo", "proofs/TasksSrcRefresh.vo", "proofs/TasksSrcSorting.vo"], translators=["tasks"])
     cases = [mc.gen_history(ctx.rng, ["frozen", "frozen", "windows"][i % 3], nops=ctx.rng.randint(6, 18)) for i in range(ctx.pick(260, 4000))]
     cases += [container_valued_case(ctx.rng) for _ in range(ctx.pick(80, 1500))]
     obs = mc.run_impl_cases(cases)
